@@ -15,6 +15,12 @@ Replay:  each type is built with reflect.StructOf (embedding through the `embed`
          without OmitZeroStructFields; Unmarshal of {"probe": value} for 17 probe names x
          {MatchCaseInsensitiveNames} x {RejectUnknownMembers} shows which field received it, or
          that it was unknown / ambiguous.
+         spec/Arshal.tla carries the per-field options over all modelled field types (pointers,
+         containers, interfaces, nested structs): omitzero by the Go zero value (-0.0 and empty
+         non-nil containers are not zero), omitempty by the encoded value (null, "", {}, []),
+         `string` on numbers only (an error elsewhere), name matching per field; every value of a
+         bounded universe is replayed with the exact predicted bytes and every input with the
+         predicted field contents.
 """
 from fieldfam import HAND, PROBES, WIDE, WIDE_PROBES, random_types
 
@@ -31,6 +37,13 @@ def run(ctx):
         s = ctx.replay_cases("fld", r.out)
         total += int(s.get("cases", 0))
         ctx.part("replay_" + name, types=s.get("cases"), executions=s.get("evaluations"), skipped=s.get("skipped_types"))
+    # omitzero / omitempty / string / case options on fields of every modelled type (Arshal.tla):
+    # exact Marshal output and the field each member is stored into, merged into existing values
+    import arshalfam as af
+    structs = [t for t in af.HAND + af.random_types(ctx.seed + 7, 200 if ctx.quick else 2000) if t["k"] == "struct" and t["f"]]
+    total += af.run_model(ctx, "fields_m", af.within(structs, 1, 500 if ctx.quick else 5000, 10 ** 9), {"m"}, "C15")
+    total += af.run_model(ctx, "fields_u", af.within(structs, 1, 300, 6000 if ctx.quick else 100000), {"u"}, "C15",
+                          uopts=[af.O(), af.O(ci=True), af.O(ru=True), af.O(ci=True, ad=True)])
     # omitempty takes effect exactly when the member would be empty - also when the member was already
     # written to a streaming encoder and has to be retracted around a flush boundary
     sw = ctx.tv("arshal", "Trace_Arshal", {"seed": ctx.seed, "mode": "c07sweep", "step": 11 if ctx.quick else 2, "maxpad": 5200, "prop": "C15"}, consts={"MaxD": 10000})
